@@ -222,3 +222,136 @@ Proof.
   exists (zone_index oob z ts). split; [apply zone_index_in_interval; exact F|].
   unfold ts_to_dt, tz_fromutc, py_utc_to_ts_ms. rewrite zone_offset_eq by exact F. reflexivity.
 Qed.
+
+(* ---- local times ---------------------------------------------------------------------------------- *)
+
+Lemma ts_to_dt_local : forall oob z ts k, zone_facts z -> in_interval z k ts ->
+  dt_local (ts_to_dt oob ts z) = ts + E z k.
+Proof.
+  intros oob z ts k F [Hk [Hl Hr]].
+  unfold ts_to_dt, tz_fromutc, py_utc_to_ts_ms. cbn [dt_local].
+  rewrite zone_offset_eq by exact F. rewrite (zone_index_unique oob z ts k F Hk Hl Hr). reflexivity.
+Qed.
+
+(* Every local time L (with any favor) is assigned the offset of an interval r such that either the instant
+   t it is mapped to lies in interval r and renders as L again, or L is a skipped local time: no instant
+   renders as L, L lies in the gap of transition r-1 (at or after the local end of interval r-1, before the
+   local start of interval r), t lies in interval r-1 and the offset assigned is that of the interval r
+   which starts at that transition. *)
+Theorem local_offset_is_adjacent : forall z, zone_ok z = true -> forall oob L f,
+  let r := zone_index_dt oob z L f in
+  let t := local_to_ts oob z L f in
+  zone_dt_offset oob z L f = E z r /\ 0 <= r <= nZ z /\
+  ((in_interval z r t /\ dt_local (ts_to_dt oob t z) = L) \/
+   (1 <= r /\ in_interval z (r - 1) t /\ OU z (r - 1) <= L < TH z (r - 1) /\
+    forall ts, dt_local (ts_to_dt oob ts z) <> L)).
+Proof.
+  intros z Hok oob L f. pose proof (zone_ok_facts z Hok) as F. cbv zeta.
+  pose proof (zone_index_dt_range oob z L f F) as Hr.
+  unfold local_to_ts. rewrite zone_dt_offset_eq by exact F.
+  split; [reflexivity|]. split; [exact Hr|].
+  destruct (zone_index_dt_eq oob z L f F) as [[Hi [Hi1 Hi2]] Heq]. cbv zeta in *.
+  set (i := py_bisect_right (z_offset_untils z) L) in *.
+  set (r := zone_index_dt oob z L f) in *.
+  destruct (andb (i <? nZ z) (andb (TH z i <=? L) (py_opt_eqb Z.eqb (Some (E z (i + 1))) f))) eqn:Ec.
+  - (* the later of two candidate intervals, chosen by the favor *)
+    apply andb_true_iff in Ec. destruct Ec as [Ec1 Ec2]. apply andb_true_iff in Ec2. destruct Ec2 as [Ec2 _].
+    apply Z.ltb_lt in Ec1. apply Z.leb_le in Ec2.
+    left. assert (Hin : in_interval z r (L - E z r)).
+    { rewrite Heq. rewrite E_W. unfold in_interval. split; [lia|]. split.
+      - right. replace (i + 1 - 1) with i by lia. unfold TH in Ec2. lia.
+      - destruct (Z.eq_dec (i + 1) (nZ z)); [left; assumption|right].
+        specialize (Hi2 (i + 1) ltac:(lia)). unfold OU in Hi2. lia. }
+    split; [exact Hin|]. rewrite (ts_to_dt_local oob z _ r F Hin). lia.
+  - rewrite Heq in *. clear Heq.
+    destruct (Z_le_gt_dec i 0) as [Hi0|Hi0]; [|destruct (Z_le_gt_dec (TH z (i - 1)) L) as [Hth|Hth]].
+    + (* first interval *)
+      left. assert (Hin : in_interval z i (L - E z i)).
+      { rewrite E_W. unfold in_interval. split; [lia|]. split; [left; lia|].
+        destruct (Z.eq_dec i (nZ z)); [left; assumption|right].
+        specialize (Hi2 i ltac:(lia)). unfold OU in Hi2. lia. }
+      split; [exact Hin|]. rewrite (ts_to_dt_local oob z _ i F Hin). lia.
+    + (* a local time of interval i *)
+      left. assert (Hin : in_interval z i (L - E z i)).
+      { rewrite E_W. unfold in_interval. split; [lia|]. split.
+        - right. unfold TH in Hth. replace (i - 1 + 1) with i in Hth by lia. lia.
+        - destruct (Z.eq_dec i (nZ z)); [left; assumption|right].
+          specialize (Hi2 i ltac:(lia)). unfold OU in Hi2. lia. }
+      split; [exact Hin|]. rewrite (ts_to_dt_local oob z _ i F Hin). lia.
+    + (* skipped local time: in the gap of transition i-1 *)
+      right. split; [lia|].
+      pose proof (Hi1 (i - 1) ltac:(lia)) as Hou.
+      split; [|split; [lia|]].
+      * rewrite E_W. unfold in_interval. split; [lia|]. split.
+        -- destruct (Z.eq_dec (i - 1) 0); [left; assumption|right].
+           pose proof (zf_B z F (i - 2) ltac:(lia) ltac:(lia)) as Hb.
+           replace (i - 2 + 2) with i in Hb by lia. replace (i - 2 + 1) with (i - 1) in Hb by lia.
+           replace (i - 1 - 1) with (i - 2) by lia. lia.
+        -- right. unfold TH in Hth. replace (i - 1 + 1) with i in Hth by lia. lia.
+      * intros ts Heq.
+        pose proof (zone_index_in_interval oob z ts F) as Hin.
+        rewrite (ts_to_dt_local oob z ts _ F Hin) in Heq. rewrite E_W in Heq.
+        destruct Hin as [Hj [Hjl Hjr]]. set (j := zone_index oob z ts) in *.
+        destruct (Z_lt_le_dec j i) as [Hlt|Hge].
+        -- destruct Hjr as [Hjr|Hjr]; [lia|].
+           pose proof (zf_OU z F j (i - 1) ltac:(lia) ltac:(lia) ltac:(lia)) as Hm. unfold OU in Hm at 1. lia.
+        -- destruct Hjl as [Hjl|Hjl]; [lia|].
+           pose proof (zf_TH z F (i - 1) (j - 1) ltac:(lia) ltac:(lia) ltac:(lia)) as Hm.
+           unfold TH in Hm at 2. replace (j - 1 + 1) with j in Hm by lia. lia.
+Qed.
+
+(* ---- subscripts ----------------------------------------------------------------------------------- *)
+
+(* every subscript the translated code evaluates with its guard true is in range (Python would raise
+   IndexError otherwise), and no result depends on the value an out-of-range one would yield *)
+Lemma subscripts_in_range : forall z, zone_ok z = true -> forall oob L f ts,
+  let i := py_bisect_right (z_offset_untils z) L in
+  (i < lenZ (z_offset_untils z) -> 0 <= i < lenZ (z_untils z) /\ 0 <= i + 1 < lenZ (z_offsets z)) /\
+  0 <= zone_index_dt oob z L f < lenZ (z_offsets z) /\
+  0 <= zone_index oob z ts < lenZ (z_offsets z).
+Proof.
+  intros z Hok oob L f ts. pose proof (zone_ok_facts z Hok) as F. cbv zeta.
+  destruct (zone_index_dt_eq oob z L f F) as [[Hi _] _]. cbv zeta in Hi.
+  pose proof (zone_index_dt_range oob z L f F). destruct (zone_index_spec oob z ts F) as [Hj _]. cbv zeta in Hj.
+  rewrite (zf_len_w z F), (zf_len_ou z F). fold (nZ z). repeat split; lia.
+Qed.
+
+Lemma oob_irrelevant : forall z, zone_ok z = true -> forall oob1 oob2 L f ts,
+  zone_index_dt oob1 z L f = zone_index_dt oob2 z L f /\
+  zone_dt_offset oob1 z L f = zone_dt_offset oob2 z L f /\
+  zone_index oob1 z ts = zone_index oob2 z ts /\
+  zone_offset oob1 z ts = zone_offset oob2 z ts.
+Proof.
+  intros z Hok oob1 oob2 L f ts. pose proof (zone_ok_facts z Hok) as F.
+  pose proof (zone_index_dt_oob_irrelevant oob1 oob2 z L f F) as H1.
+  repeat split.
+  - exact H1.
+  - rewrite !zone_dt_offset_eq by exact F. rewrite H1. reflexivity.
+  - rewrite !zone_offset_eq by exact F. reflexivity.
+Qed.
+
+(* ---- dates ---------------------------------------------------------------------------------------- *)
+
+Lemma date_roundtrip : forall d, ts_to_date (date_to_ts d) = d.
+Proof. intros d. unfold ts_to_date, date_to_ts, TICKS_PER_DAY. apply Z.div_mul. lia. Qed.
+
+(* every instant of the (UTC) day d maps back to d *)
+Lemma date_of_instant : forall d s, 0 <= s < TICKS_PER_DAY -> ts_to_date (date_to_ts d + s) = d.
+Proof.
+  intros d s Hs. unfold ts_to_date, date_to_ts, TICKS_PER_DAY in *.
+  rewrite Z.add_comm, Z.div_add by lia. rewrite Z.div_small by lia. lia.
+Qed.
+
+(* date_to_ts(date, zone) subtracts the offset in effect AT UTC MIDNIGHT of the date.  It is the local midnight
+   when the instant it returns still has that offset. *)
+Lemma date_zone_roundtrip_partial : forall z, zone_ok z = true -> forall oob d,
+  let t := date_to_ts_zone oob d z in
+  zone_offset oob z t = zone_offset oob z (date_to_ts d) ->
+  dt_local (ts_to_dt oob t z) = date_to_ts d /\ adt_date (ts_to_dt oob t z) = d.
+Proof.
+  intros z Hok oob d t Heq.
+  assert (Hl : dt_local (ts_to_dt oob t z) = date_to_ts d).
+  { unfold ts_to_dt, tz_fromutc, py_utc_to_ts_ms. cbn [dt_local]. rewrite Heq.
+    unfold t, date_to_ts_zone, date_to_ts. cbv zeta. lia. }
+  split; [exact Hl|]. unfold adt_date. rewrite Hl. apply date_roundtrip.
+Qed.
